@@ -16,7 +16,7 @@ ALLOWED_AXIOMS = []
 RULE = ("in-memory pydicom datasets over CS LO SH DS IS US SS UL SL FL FD UI PN DA TM AT OB OW UN SQ(depth<=3) x VM {0,1,n}, "
         "empty/None/blank values, private blocks at reserved slots 0x10..0xff with and without registered translators "
         "(custom deterministic Translator functions, the default CSA translators on non-CSA blobs), name clashes "
-        "(equal private names, private name = standard keyword, unknown tags), pixel/overlay/LUT elements, and "
+        "(equal private names, private name = standard keyword, unknown tags), pixel (PixelData, FloatPixelData OF, DoubleFloatPixelData OD) / overlay / LUT elements, and "
         "configurations of ignore rules / translators / conversions; one F12 case (same creator in two blocks) in every run; "
         "a separate malformed stream (text value under a numeric VR, two translators for one slot, raising translator with "
         "warn_on_trans_except=False).  Non-trivial = at least 3 elements reach the result or an error branch is taken")
@@ -31,7 +31,12 @@ ASSUMPTIONS = [
     "names used for keys (elements without dictionary keyword) are ASCII; upper-casing of a non-ASCII first letter is outside the model",
     "values: a multi-valued element is a pydicom MultiValue; one-element lists collapse to scalars (pydicom); tuples, empty lists under VRs without a conversion (they stay MultiValue objects), byte strings under numeric VRs are outside the generated domain",
     "injectivity holds under the stated hypotheses only: no plain name equals another clashing name plus its tag suffix, no plain key contains '.', translator names are distinct and dot-free, every translator fires at most once (F12 when violated)",
-    "the never-extract guarantee is for configurations that contain the corresponding ignore rule (the default contains all four); Float/Double Float Pixel Data (7FE0,0008/0009) are not covered by ignore_pixel_data",
+    "the never-extract guarantee is for configurations that contain the corresponding ignore rule (the default contains all four); pixel data = (7FE0,0008) FloatPixelData, (7FE0,0009) DoubleFloatPixelData, (7FE0,0010) PixelData",
+    "observation (behind no_suffix_clash): private names 'foo','foo','foo_0X29_0X1001' at (0029,1001..1003) with ignore_rules=() give 2 keys for 3 elements (the third overwrites Foo_0X29_0X1001)",
+    "observation (behind no_dot_keys): a private element named 'T1.Tag' plus a translator T1 returning {'Tag':..}: the plain element's value is overwritten by the translator key",
+    "observation: the group of Translator.tag is never compared; a translator declared for (0029,1001) also fires on (0019,1001) when the creator string matches (generators keep the groups equal)",
+    "observation: on Python 3 the struct.unpack branch of _get_elem_value never runs for byte strings; a text value under US/SS/UL/SL/FL/FD raises TypeError (malformed stream)",
+    "observation (outside the property: empty / non-text values): empty UI, PN, OB/OW/UN values and [] under DS/IS yield key -> [] ; [] under a VR without conversion stays a MultiValue (not JSON serialisable); bytes outside 0x20..0x7e (e.g. text with a newline) in OB/OW/UN are dropped by get_text/is_ascii",
     "JSON-serialisability is checked for configurations whose conversions keep the default get_text / unicode_str entries and for translators returning JSON values",
     "elements whose value is empty (blank text, None, VM 0) or a byte string that is not text are not constrained by the property; the model still predicts what the code does with them",
 ]
@@ -164,7 +169,7 @@ def _listing(ds):
 def _pixels(ds):
     out = []
     for elem in ds:
-        if elem.tag == 0x7fe00010:
+        if elem.tag in (0x7fe00008, 0x7fe00009, 0x7fe00010):
             out.append(bytes(elem.value) if elem.value is not None else None)
         elif elem.VR == 'SQ' and elem.value is not None:
             for item in elem.value:
@@ -324,7 +329,7 @@ def _rule_hits(rules, tag):
     hit = False
     if 'ignore_private' in rules and g % 2 == 1:
         hit = True
-    if 'ignore_pixel_data' in rules and (g, el) == (0x7fe0, 0x0010):
+    if 'ignore_pixel_data' in rules and g == 0x7fe0 and el in (0x0008, 0x0009, 0x0010):
         hit = True
     if 'ignore_overlay_data' in rules and 0x6000 <= g <= 0x60ff and el == 0x3000:
         hit = True
@@ -335,7 +340,7 @@ def _rule_hits(rules, tag):
 
 def _never_rule(tag):
     g, el = tag
-    if (g, el) == (0x7fe0, 0x0010):
+    if g == 0x7fe0 and el in (0x0008, 0x0009, 0x0010):
         return 'ignore_pixel_data'
     if 0x6000 <= g <= 0x60ff and el == 0x3000:
         return 'ignore_overlay_data'
@@ -640,11 +645,11 @@ STD_TAGS = [  # tags with a dictionary keyword (any VR may be put on them: add_n
 SEQ_TAGS = [(0x0008, 0x1110), (0x0008, 0x1140), (0x0008, 0x2112), (0x0040, 0x0275), (0x5200, 0x9229), (0x5200, 0x9230),
             (0x0018, 0x9117), (0x0088, 0x0200)]
 UNKNOWN_TAGS = [(0x0018, 0x1313), (0x0008, 0x1051), (0x0020, 0x5001), (0x0012, 0x7777), (0x6000, 0x0010), (0x6002, 0x0011)]
-NEVER_TAGS = [((0x7fe0, 0x0010), 'OW'), ((0x6000, 0x3000), 'OW'), ((0x6002, 0x3000), 'OB'), ((0x60fe, 0x3000), 'OW'),
+NEVER_TAGS = [((0x7fe0, 0x0010), 'OW'), ((0x7fe0, 0x0008), 'OF'), ((0x7fe0, 0x0009), 'OD'), ((0x7fe0, 0x0010), 'OB'), ((0x6000, 0x3000), 'OW'), ((0x6002, 0x3000), 'OB'), ((0x60fe, 0x3000), 'OW'),
               ((0x0028, 0x1201), 'OW'), ((0x0028, 0x1202), 'OW'), ((0x0028, 0x1203), 'OW'), ((0x0028, 0x1221), 'OW'),
               ((0x0028, 0x1222), 'OW'), ((0x0028, 0x1223), 'OW')]
 NEAR_NEVER_TAGS = [((0x0028, 0x1101), 'US'), ((0x0028, 0x1200), 'OW'), ((0x0028, 0x1204), 'OW'), ((0x6000, 0x3001), 'OW'), ((0x5fff, 0x3000), 'OW'),
-                   ((0x6100, 0x3000), 'OW'), ((0x7fe0, 0x0011), 'OW'), ((0x7fe1, 0x0010), 'LO')]
+                   ((0x6100, 0x3000), 'OW'), ((0x7fe0, 0x0011), 'OW'), ((0x7fe0, 0x0007), 'OW'), ((0x7fe0, 0x000a), 'OB'), ((0x7fe1, 0x0010), 'LO')]
 SCALAR_VRS = ['CS', 'LO', 'SH', 'DS', 'IS', 'US', 'SS', 'UL', 'SL', 'FL', 'FD', 'UI', 'PN', 'DA', 'TM', 'AT', 'OB', 'OW', 'UN',
               'US or SS', 'ST', 'LT', 'AS', 'DT']
 WORDS = ['MR', 'ORIGINAL', 'PRIMARY', 'M', 'ND', 'NORM', 'head scan', 'T1 mprage', 'a', 'Ab c', ' lead', 'trail ', 'x_y', 'café',
@@ -743,6 +748,10 @@ def _never_elems(rng, n, used):
         used.add(tag)
         if vr in ('OW', 'OB'):
             val = {'b': rng.choice([[0, 1, 2, 3], [97, 98, 99, 100], [255, 0], [80, 73, 88]])}
+        elif vr == 'OF':
+            val = {'b': rng.choice([[0, 0, 128, 63], [0, 0, 128, 63, 0, 0, 0, 64], [97, 98, 99, 100]])}
+        elif vr == 'OD':
+            val = {'b': rng.choice([[0, 0, 0, 0, 0, 0, 240, 63], [97, 98, 99, 100, 101, 102, 103, 104]])}
         elif vr == 'US':
             val = [256, 0, 16]
         else:
